@@ -255,31 +255,31 @@ func c02FindFunc(p *srcPkg, recvType, name string) *ast.FuncDecl {
 	return nil
 }
 
-// c02PostFilter: in EventPump.PostEvent every invocation of a callback taken from the observer
-// table is guarded by `key == source || key == nil` where key is the range key over the table
-// snapshot and source the function literal's second parameter.
-func c02PostFilter(fd *ast.FuncDecl) c02Tri {
-	if fd == nil {
-		return c02Unknown
-	}
+// c02PostFilter: every invocation of a callback taken from the observer table (a call of the
+// value variable of a range nested in a range over the table snapshot) happens only for entries
+// whose key is the posting source or nil: inside `if key == src || key == nil { … }`, or after
+// `if key != src && key != nil { continue }` in the loop body. src = second parameter of the
+// enclosing function (literal or declared). All functions of the package are scanned.
+func c02PostFilter(p *srcPkg) c02Tri {
 	res := c02Unknown
-	ast.Inspect(fd.Body, func(n ast.Node) bool {
-		fl, ok := n.(*ast.FuncLit)
-		if !ok || fl.Type.Params == nil {
-			return true
+	scan := func(params *ast.FieldList, body *ast.BlockStmt) {
+		if params == nil || body == nil {
+			return
 		}
-		var params []string
-		for _, f := range fl.Type.Params.List {
+		var names []string
+		for _, f := range params.List {
 			for _, id := range f.Names {
-				params = append(params, id.Name)
+				names = append(names, id.Name)
 			}
 		}
-		if len(params) != 2 {
-			return true
+		if len(names) != 2 {
+			return
 		}
-		src := params[1]
-		// outer range: key over the sources map; inner range over callbacks
-		ast.Inspect(fl.Body, func(m ast.Node) bool {
+		src := names[1]
+		ast.Inspect(body, func(m ast.Node) bool {
+			if _, ok := m.(*ast.FuncLit); ok {
+				return false
+			}
 			rs, ok := m.(*ast.RangeStmt)
 			if !ok || rs.Key == nil {
 				return true
@@ -288,47 +288,97 @@ func c02PostFilter(fd *ast.FuncDecl) c02Tri {
 			if !ok || key.Name == "_" {
 				return true
 			}
-			// every call of a range value variable inside rs.Body must be under the guard
-			var check func(s ast.Node, guarded bool)
-			check = func(s ast.Node, guarded bool) {
-				ast.Inspect(s, func(q ast.Node) bool {
-					switch v := q.(type) {
-					case *ast.IfStmt:
-						g := guarded || c02IsSourceGuard(v.Cond, key.Name, src)
-						check(v.Body, g)
-						if v.Else != nil {
-							check(v.Else, guarded)
-						}
-						return false
-					case *ast.RangeStmt:
-						if v != rs {
-							if val, ok := v.Value.(*ast.Ident); ok {
-								ast.Inspect(v.Body, func(c ast.Node) bool {
-									if ce, ok := c.(*ast.CallExpr); ok {
-										if id, ok := ce.Fun.(*ast.Ident); ok && id.Name == val.Name {
-											if guarded {
-												if res == c02Unknown {
-													res = c02True
-												}
-											} else {
-												res = c02False
-											}
-										}
-									}
-									return true
-								})
+			var block func(list []ast.Stmt, guarded bool)
+			var stmt func(s ast.Stmt, guarded bool)
+			calls := func(n ast.Node, val string, guarded bool) {
+				ast.Inspect(n, func(c ast.Node) bool {
+					if ce, ok := c.(*ast.CallExpr); ok {
+						if id, ok := ce.Fun.(*ast.Ident); ok && id.Name == val {
+							if guarded {
+								if res == c02Unknown {
+									res = c02True
+								}
+							} else {
+								res = c02False
 							}
 						}
 					}
 					return true
 				})
 			}
-			check(rs.Body, false)
+			stmt = func(s ast.Stmt, guarded bool) {
+				switch v := s.(type) {
+				case *ast.IfStmt:
+					block(v.Body.List, guarded || c02IsSourceGuard(v.Cond, key.Name, src))
+					if v.Else != nil {
+						stmt(v.Else, guarded)
+					}
+				case *ast.BlockStmt:
+					block(v.List, guarded)
+				case *ast.RangeStmt:
+					if val, ok := v.Value.(*ast.Ident); ok {
+						calls(v.Body, val.Name, guarded)
+					}
+				case *ast.ForStmt:
+					block(v.Body.List, guarded)
+				}
+			}
+			block = func(list []ast.Stmt, guarded bool) {
+				for _, s := range list {
+					if is, ok := s.(*ast.IfStmt); ok && is.Else == nil && c02IsNegatedSourceGuard(is.Cond, key.Name, src) && c02EndsInContinue(is.Body) {
+						guarded = true // the rest of the loop body only runs for matching entries
+						continue
+					}
+					stmt(s, guarded)
+				}
+			}
+			block(rs.Body.List, false)
 			return false
 		})
-		return false
-	})
+	}
+	for _, f := range p.files {
+		ast.Inspect(f, func(n ast.Node) bool {
+			switch v := n.(type) {
+			case *ast.FuncDecl:
+				if v.Type != nil {
+					scan(v.Type.Params, v.Body)
+				}
+			case *ast.FuncLit:
+				scan(v.Type.Params, v.Body)
+			}
+			return true
+		})
+	}
 	return res
+}
+
+func c02EndsInContinue(b *ast.BlockStmt) bool {
+	if b == nil || len(b.List) == 0 {
+		return false
+	}
+	br, ok := b.List[len(b.List)-1].(*ast.BranchStmt)
+	return ok && br.Tok == token.CONTINUE
+}
+
+// c02IsNegatedSourceGuard: key != src && key != nil
+func c02IsNegatedSourceGuard(cond ast.Expr, key, src string) bool {
+	b, ok := unparen(cond).(*ast.BinaryExpr)
+	if !ok || b.Op != token.LAND {
+		return false
+	}
+	ne := func(e ast.Expr, a, c string) bool {
+		x, ok := unparen(e).(*ast.BinaryExpr)
+		if !ok || x.Op != token.NEQ {
+			return false
+		}
+		l, _ := x.X.(*ast.Ident)
+		r, _ := x.Y.(*ast.Ident)
+		if l == nil || r == nil {
+			return false
+		}
+		return (l.Name == a && r.Name == c) || (l.Name == c && r.Name == a)
+	}
+	return (ne(b.X, key, src) && ne(b.Y, key, "nil")) || (ne(b.Y, key, src) && ne(b.X, key, "nil"))
 }
 
 func c02IsSourceGuard(cond ast.Expr, key, src string) bool {
@@ -373,33 +423,14 @@ func c02Facts(root string) ([][2]string, []string, error) {
 	}
 	watch := map[string]bool{"unfinished": true}
 
-	// descendantFinished: the counter is decremented and tested inside one critical section,
-	// the message is posted outside it
-	df := c02Walk(c02FindFunc(eng, "RootMonitor", "descendantFinished"), "lock", watch)
-	if df.unknown || len(df.all("write", "unfinished")) == 0 || len(df.all("read", "unfinished")) == 0 {
-		add("zeroTestInsideCriticalSection", c02Unknown)
-	} else {
-		ok := true
-		for _, e := range df.evs {
-			if (e.kind == "read" || e.kind == "write") && !e.held {
-				ok = false
-			}
-		}
-		add("zeroTestInsideCriticalSection", c02B(ok))
-	}
-	if pe := df.all("call", "PostEvent"); df.unknown || len(pe) == 0 {
-		add("postOutsideCriticalSection", c02Unknown)
-	} else {
-		ok := true
-		for _, e := range pe {
-			ok = ok && !e.held
-		}
-		add("postOutsideCriticalSection", c02B(ok))
-	}
-	// every write of the counter anywhere in package engine happens under the root's lock
+	// `unfinished`: EVERY read (the zero test) and EVERY write (increment, decrement) anywhere in
+	// package engine happens while the function holds the root's lock (Lock … Unlock or Lock +
+	// deferred Unlock) — however the code is split into helper functions; the finished message
+	// is posted from a place where the function does not hold the lock
 	{
-		t := c02Unknown
-		n := 0
+		reads, writes, posts := c02Unknown, c02Unknown, c02Unknown
+		nr, nw := 0, 0
+		unknown := false
 		for _, f := range eng.files {
 			for _, d := range f.Decls {
 				fd, ok := d.(*ast.FuncDecl)
@@ -407,23 +438,46 @@ func c02Facts(root string) ([][2]string, []string, error) {
 					continue
 				}
 				w := c02Walk(fd, "lock", watch)
-				for _, e := range w.all("write", "unfinished") {
-					n++
-					if w.unknown {
-						t = c02Unknown
-						n = -1000
-					} else if !e.held {
-						t = c02False
-					} else if t == c02Unknown && n > 0 {
-						t = c02True
+				for _, e := range w.evs {
+					switch {
+					case e.kind == "read" && e.name == "unfinished":
+						nr++
+						unknown = unknown || w.unknown
+						if !e.held {
+							reads = c02False
+						} else if reads == c02Unknown {
+							reads = c02True
+						}
+					case e.kind == "write" && e.name == "unfinished":
+						nw++
+						unknown = unknown || w.unknown
+						if !e.held {
+							writes = c02False
+						} else if writes == c02Unknown {
+							writes = c02True
+						}
+					case e.kind == "call" && e.name == "PostEvent":
+						unknown = unknown || w.unknown
+						if e.held {
+							posts = c02False
+						} else if posts == c02Unknown {
+							posts = c02True
+						}
 					}
 				}
 			}
 		}
-		if n < 2 && t == c02True {
-			t = c02Unknown // increment and decrement must both be found
+		if unknown || nr < 1 || nw < 2 {
+			if reads != c02False {
+				reads = c02Unknown
+			}
+			if writes != c02False {
+				writes = c02Unknown
+			}
 		}
-		add("counterWritesUnderLock", t)
+		add("zeroTestInsideCriticalSection", reads)
+		add("postOutsideCriticalSection", posts)
+		add("counterWritesUnderLock", writes)
 	}
 	// SetErrors: the error object is attached before the monitor is entered into the error map
 	se := c02Walk(c02FindFunc(eng, "monitorBase", "SetErrors"), "lock", map[string]bool{"Err": true})
@@ -443,22 +497,50 @@ func c02Facts(root string) ([][2]string, []string, error) {
 	add("finishAfterProcessEvent", c02Walk(c02FindFunc(eng, "Task", "Run"), "lock", nil).ordered([2]string{"call", "ProcessEvent"}, [2]string{"call", "Finish"}))
 	// HandleError: SetErrors, then Finish, then the error observer
 	add("handleErrorOrder", c02Walk(c02FindFunc(eng, "Task", "HandleError"), "lock", nil).ordered([2]string{"call", "SetErrors"}, [2]string{"call", "Finish"}, [2]string{"call", "notifyRootMonitorErrors"}))
-	// AddEventAndWait: the wait observer is registered before the event is added, the wait comes last
-	add("waitObserverBeforeAddEvent", c02Walk(c02FindFunc(eng, "eventProcessor", "AddEventAndWait"), "lock", nil).ordered([2]string{"call", "AddObserver"}, [2]string{"call", "AddEvent"}, [2]string{"call", "Wait"}))
-	// AddEvent: triggering test, finish-handler observer, Activate, AddTask in this order
-	add("handlerObserverBeforeAddTask", c02Walk(c02FindFunc(eng, "eventProcessor", "AddEvent"), "lock", nil).ordered([2]string{"call", "IsTriggering"}, [2]string{"call", "AddObserver"}, [2]string{"call", "Activate"}, [2]string{"call", "AddTask"}))
-	// monitor ids: read and increment of the counter in one critical section
-	mi := c02Walk(c02FindFunc(eng, "", "newMonID"), "midcounterLock", map[string]bool{"midcounter": true})
-	if mi.unknown || len(mi.all("write", "midcounter")) == 0 || len(mi.all("read", "midcounter")) == 0 {
-		add("monitorIdAllocInCriticalSection", c02Unknown)
-	} else {
-		ok := true
+	// AddEventAndWait: the wait observer is registered before the event is added
+	add("waitObserverBeforeAddEvent", c02Walk(c02FindFunc(eng, "eventProcessor", "AddEventAndWait"), "lock", nil).ordered([2]string{"call", "AddObserver"}, [2]string{"call", "AddEvent"}))
+	// AddEvent: finish-handler observer, Activate, AddTask in this order
+	add("handlerObserverBeforeAddTask", c02Walk(c02FindFunc(eng, "eventProcessor", "AddEvent"), "lock", nil).ordered([2]string{"call", "AddObserver"}, [2]string{"call", "Activate"}, [2]string{"call", "AddTask"}))
+	// monitor ids: read and increment of the counter in one critical section — or one atomic
+	// fetch-and-add whose result is the only use of the counter
+	{
+		fd := c02FindFunc(eng, "", "newMonID")
+		mi := c02Walk(fd, "midcounterLock", map[string]bool{"midcounter": true})
+		acc := 0
+		allHeld := true
 		for _, e := range mi.evs {
-			if (e.kind == "read" || e.kind == "write") && !e.held {
-				ok = false
+			if e.kind == "read" || e.kind == "write" {
+				acc++
+				allHeld = allHeld && e.held
 			}
 		}
-		add("monitorIdAllocInCriticalSection", c02B(ok))
+		adds, others := 0, 0
+		if fd != nil {
+			ast.Inspect(fd.Body, func(n ast.Node) bool {
+				if ce, ok := n.(*ast.CallExpr); ok {
+					if _, name := c02Sel(ce.Fun); strings.HasPrefix(name, "Add") && len(ce.Args) == 2 {
+						if ue, ok := ce.Args[0].(*ast.UnaryExpr); ok && ue.Op == token.AND {
+							if id, ok := ue.X.(*ast.Ident); ok && id.Name == "midcounter" {
+								adds++
+								return false
+							}
+						}
+					}
+				}
+				if id, ok := n.(*ast.Ident); ok && id.Name == "midcounter" {
+					others++
+				}
+				return true
+			})
+		}
+		switch {
+		case fd == nil || mi.unknown || (acc == 0 && adds == 0):
+			add("monitorIdAllocInCriticalSection", c02Unknown)
+		case adds == 1 && others == 0:
+			add("monitorIdAllocInCriticalSection", c02True)
+		default:
+			add("monitorIdAllocInCriticalSection", c02B(allHeld && acc >= 2 && adds == 0))
+		}
 	}
 	// AllErrors: under the lock, and no asserting accessor
 	ae := c02Walk(c02FindFunc(eng, "RootMonitor", "AllErrors"), "lock", map[string]bool{"Err": true, "errors": true})
@@ -483,7 +565,7 @@ func c02Facts(root string) ([][2]string, []string, error) {
 	}
 	sort.Strings(calls)
 	// PostEvent only calls the callbacks registered for the posting source (or for all sources)
-	add("postFiltersBySource", c02PostFilter(c02FindFunc(pub, "EventPump", "PostEvent")))
+	add("postFiltersBySource", c02PostFilter(pub))
 	return facts, calls, nil
 }
 
